@@ -6,6 +6,7 @@ import (
 	"fmt"
 	"net"
 	"runtime"
+	"strings"
 	"sync"
 	"sync/atomic"
 	"testing"
@@ -48,6 +49,8 @@ type C10Case struct {
 	Streams []C10Stream `json:"streams"`
 	Delays  []Delay     `json:"delays,omitempty"`
 	Reopen  []C10Reopen `json:"reopen,omitempty"`
+	// Rounds: barrier rounds of concurrent handle acquisition on fresh ids, run before the traffic
+	Rounds []C10OpenRound `json:"open_rounds,omitempty"`
 }
 
 func genQLen(t *rapid.T) int {
@@ -88,6 +91,7 @@ func genC10(t *rapid.T) C10Case {
 		}
 	}
 	c.Delays = genDelays(t, 6)
+	c.Rounds = genRounds(t, c.QLen)
 	if rapid.IntRange(0, 3).Draw(t, "reopen") == 0 {
 		n := rapid.IntRange(1, min(3, len(c.IDs))).Draw(t, "nreopen")
 		first := rapid.IntRange(0, len(c.IDs)-1).Draw(t, "reopen_conn")
@@ -221,6 +225,20 @@ func runC10Once(c C10Case) (ev.Outcome, bool) {
 			}
 		}
 		cwg.Wait()
+	}
+
+	// barrier rounds: concurrent acquisition of the handle of fresh ids
+	if len(c.Rounds) > 0 {
+		bad, stall, same := runOpenRounds(c, r.p)
+		ev.Get("C10").AddExtra("open_rounds", len(c.Rounds))
+		ev.Get("C10").AddExtra("open_rounds_all_handles_identical", same)
+		if bad != "" {
+			o := ev.Outcome{Classes: c10Classes(c), NonTrivial: c10NonTrivial(c), Fail: bad}
+			if stall {
+				o.History = map[string]any{"stacks": stacks()}
+			}
+			return o, stall
+		}
 	}
 
 	var wg sync.WaitGroup
@@ -608,6 +626,21 @@ func c10Classes(c C10Case) []string {
 	}
 	if c.Blocked {
 		cls = append(cls, "blocked_start")
+	}
+	if len(c.Rounds) > 0 {
+		cls = append(cls, "concurrent_open_rounds")
+		for _, rd := range c.Rounds {
+			if rd.Reopen {
+				cls = append(cls, "concurrent_reopen_after_close")
+				break
+			}
+		}
+		for _, rd := range c.Rounds {
+			if strings.ContainsAny(rd.Methods, "dl") {
+				cls = append(cls, "concurrent_open_via_dialer_or_listener")
+				break
+			}
+		}
 	}
 	if len(c.Reopen) > 0 {
 		cls = append(cls, "reopened_id")
